@@ -526,7 +526,7 @@ package fsutil
 // record alone
 //@ pred specLinked(fi os.FileInfo, seenFiles map[uint64]string) bool = seenFiles != nil && asptr(fi.Sys(), syscall.Stat_t).Nlink > 1 && haskey(seenFiles, asptr(fi.Sys(), syscall.Stat_t).Ino)
 //@ func setUnixOpt
-//@   property C09 C11
+//@   property C09 C11 C17
 //@   requires stat != nil && fi != nil && isptr(fi.Sys(), syscall.Stat_t) && asptr(fi.Sys(), syscall.Stat_t) != nil
 //@   modifies *stat, seenFiles[*]
 //@   ensures owner: stat.Uid == asptr(fi.Sys(), syscall.Stat_t).Uid && stat.Gid == asptr(fi.Sys(), syscall.Stat_t).Gid
@@ -546,7 +546,7 @@ package fsutil
 // the stat recorded for an entry: path as given, the lstat mode without the
 // socket bit, nanosecond mtime, size for non-directories, link target for symlinks
 //@ func mkstat
-//@   property C09 C01
+//@   property C09 C01 C17
 //@   requires fi != nil && isptr(fi.Sys(), syscall.Stat_t) && asptr(fi.Sys(), syscall.Stat_t) != nil
 //@   modifies inodemap[*]
 //@   effects Readlink LListxattr LGetxattr
@@ -661,3 +661,33 @@ package fsutil
 //@   at call strings.HasPrefix: separator_terminated: specEndsWithSep(arg1) && (arg0 == path || specEndsWithSep(arg0))
 //@   at call filterFS.Walk.fn: not_skipped: !skip && walkErr == nil
 //@   at call filterFS.Walk.fn: map_consulted_first: fs.mapFn == nil || cnt(MapFn) > old(cnt(MapFn))
+
+// ---------------------------------------------------------------------------
+// tarwriter.go (C17)
+// ---------------------------------------------------------------------------
+
+// the header written for an entry: name in slash form with a trailing slash for
+// directories, owner/device numbers/link name from the view's stat, link
+// members (symlink or hard link) carry no size and the right type flag; the
+// payload is opened after the header and only for non-empty regular non-link
+// members
+//@ func WriteTar$1
+//@   property C17
+//@   requires entry != nil
+//@   modifies heap
+//@   effects *
+//@   at call tar.Writer.WriteHeader: dir_slash: fi.IsDir() ==> strings.HasSuffix(filepath.ToSlash(path), "/") || specEndsWithSep(arg1.Name)
+//@   at call tar.Writer.WriteHeader: file_name: !fi.IsDir() ==> arg1.Name == filepath.ToSlash(path)
+//@   at call tar.Writer.WriteHeader: owner_and_device: arg1.Uid == int(stat.Uid) && arg1.Gid == int(stat.Gid) && arg1.Devmajor == stat.Devmajor && arg1.Devminor == stat.Devminor && arg1.Linkname == stat.Linkname
+//@   at call tar.Writer.WriteHeader: link_member: stat.Linkname != "" ==> arg1.Size == 0 && arg1.Typeflag == ite(fi.Mode() & os.ModeSymlink != 0, tar.TypeSymlink, tar.TypeLink)
+//@   at call FS.Open: payload_only_for_content: hdr.Typeflag == tar.TypeReg && hdr.Size > 0 && hdr.Linkname == "" && cnt(TarHeader) == old(cnt(TarHeader)) + 1 && ptr(ref(arg(TarHeader, 0)), tar.Header) == hdr
+//@   ensures header_once: result == nil ==> cnt(TarHeader) == old(cnt(TarHeader)) + 1
+//@   ensures atmost: cnt(TarHeader) <= old(cnt(TarHeader)) + 1 && cnt(FsOpen) <= old(cnt(FsOpen)) + 1
+//@   ensures payload: cnt(FsOpen) > old(cnt(FsOpen)) ==> arg(FsOpen, 0) == path && when(TarHeader) < when(FsOpen)
+
+// the archive is closed exactly once after a complete walk
+//@ func WriteTar
+//@   property C17
+//@   modifies heap
+//@   effects *
+//@   ensures closed: result == nil ==> cnt(TarClose) >= old(cnt(TarClose)) + 1 && when(TarClose) == clk()
